@@ -519,6 +519,15 @@ public:
 
         [[maybe_unused]] const int ret = starpu_init(NULL);
         assert(ret == 0);
+
+        pthread_mutex_t lock = PTHREAD_MUTEX_INITIALIZER;
+        TbStarPUUtils::ExecOnWorkers(STARPU_CPU, [&](){
+            pthread_mutex_lock(&lock);
+            increaseNumberOfKernels(starpu_worker_get_id()+1);
+            pthread_mutex_unlock(&lock);
+        });
+        pthread_mutex_destroy(&lock);
+
         starpu_pause();
     }
 
